@@ -4,6 +4,7 @@ import (
 	"fmt"
 	"go/token"
 	"go/types"
+	"strings"
 
 	"golang.org/x/tools/go/ssa"
 )
@@ -811,5 +812,130 @@ func runR62(c *Ctx) {
 		c.bad(key, p.pos(start.Instrs[0].Pos()), "an empty line can reach the code that appends the row's cells although IgnoreEmptyLines is set (e.g. when the header has a single column, so the column count matches): the empty line becomes a cell")
 	} else {
 		c.ok(key, p.pos(start.Instrs[0].Pos()), "empty lines are skipped before any cell is appended, for every column count")
+	}
+}
+
+// ---- R65: function values created by the library carry no mutable state ----
+
+func init() {
+	register(&Rule{ID: "R65", Name: "CLOSURE-STATE", Floor: 20,
+		Text: "no anonymous function that outlives the operation creating it (E1: the function object is reachable from the result of a public root, or is stored into an argument or package-level state) writes through a variable it captured: a function value handed out by the library (aggregation.StrJoin(sep), option values, nilSafe wrappers, table entries) can be called from any number of goroutines and for any number of groups, so a captured scratch buffer or counter is shared mutable state. One obligation per anonymous function of the module",
+		Run:  runR65})
+}
+
+// derivedFromFreeVar: the address/collection v is reached from a captured variable.
+func derivedFromFreeVar(v ssa.Value, d int) *ssa.FreeVar {
+	if d > 12 || v == nil {
+		return nil
+	}
+	switch t := v.(type) {
+	case *ssa.FreeVar:
+		return t
+	case *ssa.FieldAddr:
+		return derivedFromFreeVar(t.X, d+1)
+	case *ssa.IndexAddr:
+		return derivedFromFreeVar(t.X, d+1)
+	case *ssa.UnOp:
+		if t.Op == token.MUL {
+			return derivedFromFreeVar(t.X, d+1)
+		}
+	case *ssa.Slice:
+		return derivedFromFreeVar(t.X, d+1)
+	case *ssa.ChangeType:
+		return derivedFromFreeVar(t.X, d+1)
+	case *ssa.Phi:
+		for _, e := range t.Edges {
+			if fv := derivedFromFreeVar(e, d+1); fv != nil {
+				return fv
+			}
+		}
+	}
+	return nil
+}
+
+// closureEscapes: some MakeClosure of fn is used other than as the callee of an immediate call / defer.
+func closureEscapes(fn *ssa.Function) bool {
+	parent := fn.Parent()
+	if parent == nil {
+		return false
+	}
+	esc := false
+	var scan func(f *ssa.Function)
+	scan = func(f *ssa.Function) {
+		eachInstr(f, func(in ssa.Instruction) {
+			mc, ok := in.(*ssa.MakeClosure)
+			if !ok || mc.Fn != ssa.Value(fn) {
+				return
+			}
+			for _, r := range *mc.Referrers() {
+				switch u := r.(type) {
+				case *ssa.Call:
+					if u.Call.Value != ssa.Value(mc) {
+						esc = true
+					}
+				case *ssa.Defer:
+					if u.Call.Value != ssa.Value(mc) {
+						esc = true
+					}
+				case *ssa.DebugRef:
+				default:
+					esc = true
+				}
+			}
+		})
+		for _, af := range f.AnonFuncs {
+			scan(af)
+		}
+	}
+	scan(parent)
+	return esc
+}
+
+func runR65(c *Ctx) {
+	p := c.P
+	outlive := p.purityResult(nil).outlive
+	for _, fn := range p.Funcs {
+		if fn.Parent() == nil || fn.Blocks == nil {
+			continue
+		}
+		key := fname(fn)
+		if len(fn.FreeVars) == 0 {
+			c.okTrivial(key+"|captures", p.pos(fn.Pos()), "captures nothing")
+			continue
+		}
+		var writes []string
+		eachInstr(fn, func(in ssa.Instruction) {
+			switch t := in.(type) {
+			case *ssa.Store:
+				if fv := derivedFromFreeVar(t.Addr, 0); fv != nil {
+					writes = append(writes, fmt.Sprintf("store through captured %s at %s", fv.Name(), p.instrPos(in)))
+				}
+			case *ssa.MapUpdate:
+				if fv := derivedFromFreeVar(t.Map, 0); fv != nil {
+					writes = append(writes, fmt.Sprintf("map update through captured %s at %s", fv.Name(), p.instrPos(in)))
+				}
+			case *ssa.Call:
+				switch builtinName(t) {
+				case "copy", "delete", "clear":
+					if fv := derivedFromFreeVar(t.Call.Args[0], 0); fv != nil {
+						writes = append(writes, fmt.Sprintf("%s through captured %s at %s", builtinName(t), fv.Name(), p.instrPos(in)))
+					}
+				}
+			}
+		})
+		switch {
+		case len(writes) == 0:
+			c.ok(key+"|captures", p.pos(fn.Pos()), fmt.Sprintf("%d captured variable(s), none written", len(fn.FreeVars)))
+		case !closureEscapes(fn):
+			c.ok(key+"|captures", p.pos(fn.Pos()), "writes captured variables but is only invoked or deferred inside the call that created it")
+		case outlive[fn] == "":
+			c.ok(key+"|captures", p.pos(fn.Pos()), "writes captured variables and is passed on, but no public operation returns it or stores it in memory that outlives the operation (E1: not reachable from any root's result, arguments or package-level state)")
+		default:
+			writes = append(writes, "it survives "+outlive[fn])
+			if len(writes) > 4 {
+				writes = writes[len(writes)-4:]
+			}
+			c.bad(key+"|captures", p.pos(fn.Pos()), "a function value that outlives its creator keeps mutable state: "+strings.Join(writes, "; "))
+		}
 	}
 }
